@@ -21,9 +21,10 @@ Three statements are false of the code as it is and are kept visible as
 * `zipfile.ZipFile.__init__` swallows an `OSError` of its `open` and retries with a truncating
   file mode; `ziputil` re-opens the temporary archive for every member, so such an error makes
   the save move an archive that lacks members into place and report success
-  (`no_partial_archive_partial`, `successful_save_partial`, `zip_full_statement_fails`); the
-  same happens when `ziputil.copy_file`'s GH82 loop tries again after a `PermissionError` of the
-  archive's *close* (`retry_after_failed_close_full_statement_fails`);
+  (`no_partial_archive_partial`, `successful_save_partial`, `zip_full_statement_fails`) – and
+  that is the only such case: `success_complete_unless_transient_reopen`.  (Before 14fa119 there
+  was a second one, `ziputil.copy_file`'s GH82 loop trying again after a `PermissionError` of
+  the archive's *close*: `retry_after_failed_close_full_statement_fails` is about that old rule.)
 * a *directory* save is written in place, so a second consecutive failure pushes the last
   complete copy to `_BAK2` (`latest_at_front_partial`, `latest_at_front_full_statement_fails`);
 * a failed load does not undo the parse-time renaming of an existing model of the same name
@@ -57,9 +58,7 @@ theorem copy_moves_at_most_one_slot (fs : FS) (sv : Save) (k i : Nat) (s : Slot)
   save_moves_one maxB sv k fs i s hs hi h
 
 /-- the trigger-free faults: not a transient error at a re-opening of the temporary archive
-(where `zipfile` would swallow it and truncate the archive), not a transient `PermissionError`
-at the close of the archive inside `copy_file`'s retry loop (whose next attempt starts a new
-archive behind the damaged one) -/
+(where `zipfile` would swallow it and truncate the archive) – see `notTruncating_iff` -/
 def NotTruncating (fs : FS) (sv : Save) (k : Nat) : Prop :=
   faultKind sv.pol (plan maxB sv fs) k ≠ .truncates
 
@@ -312,9 +311,8 @@ theorem persistent_fault_raises (fs : FS) (sv : Save) (k : Nat) (hp : sv.pol.per
   · exact save_raises maxB sv k fs h hk
   · exact absurd hg (hm g)
 
-/-- A transient `PermissionError` at an operation under a handler for it (`ZipFile.write`
-inside `copy_file`'s GH82 loop, an `unlink`/`rmdir` of `TemporaryDirectory.cleanup`) is
-absorbed without trace: the save is the uninterrupted save. -/
+/-- A transient `PermissionError` at an operation under a handler for it (an `unlink`/`rmdir`
+of `TemporaryDirectory.cleanup`) is absorbed without trace: the save is the uninterrupted save. -/
 theorem transient_permission_error_absorbed (fs : FS) (sv : Save) (k : Nat)
     (hperm : sv.pol.exc = .perm) (honce : sv.pol.persist = false)
     (hg : (plan maxB sv fs)[k]? = some (.tmp .guarded)) :
@@ -322,42 +320,82 @@ theorem transient_permission_error_absorbed (fs : FS) (sv : Save) (k : Nat)
   apply save_retried
   rw [faultKind_guarded _ _ _ hg, if_pos ⟨hperm, honce⟩]
 
-/-- An error of any other class at such an operation (also at the close inside the loop)
-interrupts the save. -/
+/-- An error of any other class at such an operation interrupts the save. -/
 theorem guarded_other_error_raises (fs : FS) (sv : Save) (k : Nat) (hos : sv.pol.exc = .os)
-    (hg : (plan maxB sv fs)[k]? = some (.tmp .guarded) ∨
-      (plan maxB sv fs)[k]? = some (.tmp .guardedClose)) :
+    (hg : (plan maxB sv fs)[k]? = some (.tmp .guarded)) :
     (save maxB sv k fs).2 = false := by
   have hk : k < (plan maxB sv fs).length := by
     rcases Nat.lt_or_ge k (plan maxB sv fs).length with h | h
     · exact h
-    · rw [List.getElem?_eq_none h] at hg; rcases hg with hg | hg <;> cases hg
+    · rw [List.getElem?_eq_none h] at hg; cases hg
   have hne : ¬ (sv.pol.exc = .perm ∧ sv.pol.persist = false) := by
     intro hc; rw [hos] at hc; cases hc.1
   apply save_raises maxB sv k fs _ hk
-  rcases hg with hg | hg
-  · rw [faultKind_guarded _ _ _ hg, if_neg hne]
-  · rw [faultKind_guardedClose _ _ _ hg, if_neg hne]
+  rw [faultKind_guarded _ _ _ hg, if_neg hne]
 
-/-- the witness: a zip save of a model with one IO data file over an existing zip save; the
-transient `PermissionError` hits the close of the archive inside `copy_file`'s loop (index 9:
-one rename, then `t c t c t r t r guarded guardedClose`) -/
+/-- An error of *every* class and persistence at an operation nobody guards ends the save – since
+14fa119 that is what `ZipFile.write` and the close inside `copy_file` are (as every write of a
+member or of an IO data file always was). -/
+theorem unguarded_error_raises (fs : FS) (sv : Save) (k : Nat)
+    (hg : (plan maxB sv fs)[k]? = some (.tmp .plain)) : (save maxB sv k fs).2 = false := by
+  have hk : k < (plan maxB sv fs).length := by
+    rcases Nat.lt_or_ge k (plan maxB sv fs).length with h | h
+    · exact h
+    · rw [List.getElem?_eq_none h] at hg; cases hg
+  exact save_raises maxB sv k fs (faultKind_plain _ _ _ hg) hk
+
+/-- what the hypothesis of the `_partial` statements excludes, spelled out: a *transient* error
+at a *re-opening* of the temporary archive – nothing else, for every error class -/
+theorem notTruncating_iff (fs : FS) (sv : Save) (k : Nat) :
+    NotTruncating fs sv k ↔
+      ¬ ((plan maxB sv fs)[k]? = some (.tmp .reopen) ∧ sv.pol.persist = false) := by
+  unfold NotTruncating
+  rw [Ne, faultKind_truncates_iff]
+
+/-- Success ⇒ complete, for every fault policy and every primitive but that one case: the
+statement `retry_after_failed_close_full_statement_fails` refutes for the old rule holds now. -/
+theorem success_complete_unless_transient_reopen (fs : FS) (sv : Save) (k : Nat)
+    (hr : ¬ ((plan maxB sv fs)[k]? = some (.tmp .reopen) ∧ sv.pol.persist = false))
+    (hdone : (save maxB sv k fs).2 = true) :
+    (save maxB sv k fs).1 0 = .good sv.kind sv.g ∧
+      (fs 0 ≠ .absent → (save maxB sv k fs).1 1 = fs 0) :=
+  successful_save_partial fs sv k ((notTruncating_iff fs sv k).mpr hr) hdone
+
+/-- … and a zip path is never left partial, for every fault policy, but for that one case. -/
+theorem zip_path_never_partial_unless_transient_reopen (fs : FS) (sv : Save) (hz : sv.kind = .zip)
+    (k : Nat) (hr : ¬ ((plan maxB sv fs)[k]? = some (.tmp .reopen) ∧ sv.pol.persist = false))
+    (h : (fs 0).isPart = false) : ((save maxB sv k fs).1 0).isPart = false :=
+  zip_path_never_partial_partial fs sv hz k ((notTruncating_iff fs sv k).mpr hr) h
+
+/-! ### the rule of the code before 14fa119 (fixed finding
+`C14-copyfile-retry-after-failed-close-drops-members`) -/
+
+/-- the witness: a zip save of a model with one IO data file over an existing zip save, as the
+code before 14fa119 performed it (`ZipFile.write` and the close inside `copy_file`'s loop:
+`guarded`, `guardedClose`); the transient `PermissionError` hits the close (index 10: one
+rename, then `t c t c t r t r guarded guardedClose`) -/
 def retryWitnessSave : Save :=
   { kind := .zip, g := 2, n2 := 2, pol := { exc := .perm },
     pre := [.plain, .create, .plain, .create, .plain, .reopen, .plain, .reopen, .guarded,
             .guardedClose] }
 
-/-- The full statement is false of the code also when no error is at a (re-)opening of the
-archive: the retry after a failed close makes the save report success with an archive that is
-not a complete copy at the path (the previous copy is intact at `_BAK1`). -/
+/-- With the rule of the code before 14fa119 the full statement fails also when no error is at
+a (re-)opening of the archive: the retry after a failed close made the save report success with
+an archive that is not a complete copy at the path (the previous copy intact at `_BAK1`). -/
 theorem retry_after_failed_close_full_statement_fails :
     ¬ (∀ (fs : FS) (sv : Save) (k : Nat),
-        (plan maxB sv fs)[k]? ≠ some (.tmp .reopen) → (save maxB sv k fs).2 = true →
-        (save maxB sv k fs).1 0 = .good sv.kind sv.g) := by
+        (plan maxB sv fs)[k]? ≠ some (.tmp .reopen) → (saveOld maxB sv k fs).2 = true →
+        (saveOld maxB sv k fs).1 0 = .good sv.kind sv.g) := by
   intro H
   have := H zipWitnessFs retryWitnessSave 10 (by decide) (by decide)
   revert this
   decide
+
+/-- the two rules differ at that close only -/
+theorem old_rule_differs_at_close_only (fs : FS) (sv : Save) (k : Nat)
+    (h : (plan maxB sv fs)[k]? ≠ some (.tmp .guardedClose)) :
+    saveOld maxB sv k fs = save maxB sv k fs :=
+  saveOld_eq maxB sv k fs h
 
 /-! ## Non-vacuity: concrete, non-trivial instances -/
 
@@ -454,47 +492,60 @@ example : keys (loadReg [] (newModel [] {} (some "A")).1 "A" .afterRename) = ["A
 example : keys (loadReg [] (newModel [] {} (some "A")).1 "A" .rootSource) = ["A"] := by
   decide +kernel
 
--- fault policies on the IO-data witness (`retryWitnessSave`: … `guarded` at 9, `guardedClose` at 10,
--- the move at 11, two clean-up operations)
-example : (plan maxB retryWitnessSave zipWitnessFs).length = 14 ∧
-    (plan maxB retryWitnessSave zipWitnessFs)[9]? = some (.tmp .guarded) ∧
-    (plan maxB retryWitnessSave zipWitnessFs)[10]? = some (.tmp .guardedClose) := by decide
--- a transient PermissionError at `ZipFile.write` inside the loop: absorbed, the save is complete
-example : (save maxB retryWitnessSave 9 zipWitnessFs).2 = true ∧
-    (save maxB retryWitnessSave 9 zipWitnessFs).1 0 = .good .zip 2 ∧
-    (save maxB retryWitnessSave 9 zipWitnessFs).1 1 = .good .zip 1 := by
-  rw [transient_permission_error_absorbed zipWitnessFs retryWitnessSave 9 rfl rfl (by decide)]
-  decide
--- the same error persisting through all attempts: the save raises, the path is absent (never a
--- partial archive), the previous copy is at `_BAK1`
-def retryPersist : Save := { retryWitnessSave with pol := { exc := .perm, persist := true } }
-example : (save maxB retryPersist 9 zipWitnessFs).2 = false ∧
-    (save maxB retryPersist 9 zipWitnessFs).1 0 = .absent ∧
-    (save maxB retryPersist 9 zipWitnessFs).1 1 = .good .zip 1 := by
-  have h9 : (plan maxB retryPersist zipWitnessFs)[9]? = some (.tmp .guarded) := by decide
-  refine ⟨persistent_fault_raises zipWitnessFs retryPersist 9 rfl (by decide)
-    (by intro g; rw [h9]; intro hc; cases hc), ?_, ?_⟩ <;> decide
--- … also at the close, and at a re-opening (no truncation when the error persists)
-example : (save maxB retryPersist 10 zipWitnessFs).2 = false ∧
-    (save maxB retryPersist 6 zipWitnessFs).2 = false ∧
-    (save maxB retryPersist 6 zipWitnessFs).1 0 = .absent ∧
-    NotTruncating zipWitnessFs retryPersist 6 ∧ NotTruncating zipWitnessFs retryPersist 10 := by
-  decide
--- a persistent error of the rename inside `shutil.move` is survived (it copies): complete
-example : (save maxB retryPersist 11 zipWitnessFs).2 = true ∧
-    (save maxB retryPersist 11 zipWitnessFs).1 0 = .good .zip 2 :=
-  ⟨by decide, (persistent_fault_success_complete zipWitnessFs retryPersist 11 rfl (by decide)).1⟩
--- a plain OSError at the guarded operations is not absorbed
-example : (save maxB { retryWitnessSave with pol := {} } 9 zipWitnessFs).2 = false :=
-  guarded_other_error_raises zipWitnessFs { retryWitnessSave with pol := {} } 9 rfl (Or.inl (by decide))
--- the retry-after-failed-close witness in full
-example : (save maxB retryWitnessSave 10 zipWitnessFs).2 = true ∧
-    (save maxB retryWitnessSave 10 zipWitnessFs).1 0 = .part .zip 2 ∧
-    (save maxB retryWitnessSave 10 zipWitnessFs).1 1 = .good .zip 1 ∧
-    ¬ NotTruncating zipWitnessFs retryWitnessSave 10 := by decide
--- a transient PermissionError in the clean-up after the move is absorbed as well
-example : save maxB retryWitnessSave 12 zipWitnessFs = save maxB retryWitnessSave 14 zipWitnessFs :=
-  transient_permission_error_absorbed zipWitnessFs retryWitnessSave 12 rfl rfl (by decide)
+-- fault policies on a zip save of a model with one IO data file (`ioSave`: … the re-opening for the
+-- IO file at 8, `ZipFile.write` at 9, the close at 10, the move at 11, two clean-up operations)
+def ioSave : Save :=
+  { kind := .zip, g := 2, n2 := 2, pol := { exc := .perm },
+    pre := [.plain, .create, .plain, .create, .plain, .reopen, .plain, .reopen, .plain, .plain] }
+def ioSavePersist : Save := { ioSave with pol := { exc := .perm, persist := true } }
+example : (plan maxB ioSave zipWitnessFs).length = 14 ∧
+    (plan maxB ioSave zipWitnessFs)[8]? = some (.tmp .reopen) ∧
+    (plan maxB ioSave zipWitnessFs)[9]? = some (.tmp .plain) ∧
+    (plan maxB ioSave zipWitnessFs)[12]? = some (.tmp .guarded) := by decide
+-- a PermissionError (transient or persistent) at `ZipFile.write` / the close inside copy_file: the
+-- save raises, the path is absent (never a partial archive), the previous copy is at `_BAK1`
+example : (save maxB ioSave 9 zipWitnessFs).2 = false ∧
+    (save maxB ioSave 10 zipWitnessFs).2 = false ∧
+    (save maxB ioSave 10 zipWitnessFs).1 0 = .absent ∧
+    (save maxB ioSave 10 zipWitnessFs).1 1 = .good .zip 1 ∧
+    (save maxB ioSavePersist 9 zipWitnessFs).2 = false :=
+  ⟨unguarded_error_raises zipWitnessFs ioSave 9 (by decide),
+   unguarded_error_raises zipWitnessFs ioSave 10 (by decide), by decide, by decide,
+   unguarded_error_raises zipWitnessFs ioSavePersist 9 (by decide)⟩
+-- a PermissionError that persists at the opening inside the loop: all attempts fail, the save raises,
+-- nothing is truncated
+example : (save maxB ioSavePersist 8 zipWitnessFs).2 = false ∧
+    (save maxB ioSavePersist 8 zipWitnessFs).1 0 = .absent ∧
+    (save maxB ioSavePersist 8 zipWitnessFs).1 1 = .good .zip 1 ∧
+    NotTruncating zipWitnessFs ioSavePersist 8 := by
+  have h8 : (plan maxB ioSavePersist zipWitnessFs)[8]? = some (.tmp .reopen) := by decide
+  refine ⟨persistent_fault_raises zipWitnessFs ioSavePersist 8 rfl (by decide)
+    (by intro g; rw [h8]; intro hc; cases hc), ?_, ?_, ?_⟩ <;> decide
+-- a transient one there is the known `zipfile` case, the one thing `notTruncating_iff` excludes
+example : ¬ NotTruncating zipWitnessFs ioSave 8 ∧ NotTruncating zipWitnessFs ioSave 9 ∧
+    NotTruncating zipWitnessFs ioSave 10 := by
+  refine ⟨?_, ?_, ?_⟩ <;> rw [notTruncating_iff] <;> decide
+-- success ⇒ complete applies to every absorbed error but that one: the rename inside `shutil.move`
+-- (persistent), the clean-up (transient PermissionError)
+example : (save maxB ioSavePersist 11 zipWitnessFs).2 = true ∧
+    (save maxB ioSavePersist 11 zipWitnessFs).1 0 = .good .zip 2 :=
+  ⟨by decide, (persistent_fault_success_complete zipWitnessFs ioSavePersist 11 rfl (by decide)).1⟩
+example : (save maxB ioSave 12 zipWitnessFs).1 0 = .good .zip 2 :=
+  (success_complete_unless_transient_reopen zipWitnessFs ioSave 12 (by decide) (by decide)).1
+example : save maxB ioSave 12 zipWitnessFs = save maxB ioSave 14 zipWitnessFs :=
+  transient_permission_error_absorbed zipWitnessFs ioSave 12 rfl rfl (by decide)
+-- a plain OSError in the clean-up is not absorbed
+example : (save maxB { ioSave with pol := {} } 12 zipWitnessFs).2 = false :=
+  guarded_other_error_raises zipWitnessFs { ioSave with pol := {} } 12 rfl (by decide)
+-- the old rule's witness in full; under the present rule the same fault just ends the save
+example : (saveOld maxB retryWitnessSave 10 zipWitnessFs).2 = true ∧
+    (saveOld maxB retryWitnessSave 10 zipWitnessFs).1 0 = .part .zip 2 ∧
+    (saveOld maxB retryWitnessSave 10 zipWitnessFs).1 1 = .good .zip 1 ∧
+    (save maxB retryWitnessSave 10 zipWitnessFs).2 = false ∧
+    (save maxB retryWitnessSave 10 zipWitnessFs).1 0 = .absent ∧
+    saveOld maxB retryWitnessSave 9 zipWitnessFs = save maxB retryWitnessSave 9 zipWitnessFs :=
+  ⟨by decide, by decide, by decide, by decide, by decide,
+   old_rule_differs_at_close_only zipWitnessFs retryWitnessSave 9 (by decide)⟩
 -- directory format with IO data: openpyxl's `ZipFile(path, "w")` of a workbook below the path
 -- (index 4 of the plan) absorbs a transient error, not a persistent one
 def demoDirIO : Save := { kind := .dir, g := 2, body := [none, none, some .create, none, some .plain, none] }
